@@ -1,0 +1,30 @@
+// Copyright (C) The Arvados Authors. All rights reserved.
+//
+// SPDX-License-Identifier: AGPL-3.0
+
+//go:build verif
+// +build verif
+
+// Machine-checked contracts (read by /verif/bin/govc; never compiled into
+// normal builds).  See /verif/DESIGN.md section 3 for the language.
+
+package crunchrun
+
+// ------------------------------------------------------------------- C17
+// walkMount: host files are walked only for "tmp" mounts that are part of the
+// output; collection content is taken by Extract of exactly the path relative
+// to the mount; anything not inside a known mount is an error, never dropped.
+//@ func copier.walkMount property C17 safety -bounds
+//@   calls copier.walkHostFS#1: requires srcRoot != "" && srcMount.Kind == "tmp" && !srcMount.ExcludeFromOutput && $0 == dest && $1 == src && $2 == maxSymlinks && $3 == walkMountsBelow
+//@   calls Manifest.Extract#*: requires srcRoot != "" && srcMount.Kind == "collection" && !srcMount.ExcludeFromOutput && $0 == srcRelPath && $1 == dest
+//@   calls copier.walkMountsBelow#1: requires walkMountsBelow && srcRoot != "" && $0 == dest && $1 == src
+
+// walkHostFS: a symbolic link is followed only while the budget lasts
+// (maxSymlinks >= 0) and the target is walked with the budget decreased by one
+// and WITH the collections mounted below it (includeMounts = true), so a link
+// chain is finite and nothing below the target is silently left out; secret
+// mounts are skipped; a file that is neither link, directory nor regular file
+// is an error.
+//@ func copier.walkHostFS property C17 safety -bounds
+//@   calls copier.walkMountsBelow#1: requires includeMounts && $0 == dest && $1 == src
+//@   calls copier.walkMount#1: requires maxSymlinks >= 0 && $0 == dest && $1 == target && $2 == maxSymlinks - 1 && $3 == true
